@@ -150,7 +150,8 @@ func (ex *Exec) paramNames(fn *ssa.Function, ct *Contract) []string {
 		} else if len(ct.Params) == len(fn.Params) {
 			copy(names, ct.Params)
 		} else {
-			fatalf("contract %s lists %d parameters, function has %d", ct.Key, len(ct.Params), len(fn.Params)-off)
+			// the function's signature no longer matches its contract: fail closed for this function, not for the whole run
+			unsupported("contract %s lists %d parameters, function has %d", ct.Key, len(ct.Params), len(fn.Params)-off)
 		}
 	}
 	return names
@@ -448,6 +449,22 @@ func (ex *Exec) applyContract(c *Contract, key string, sig *types.Signature, pna
 			unsupported("panics_unless of %s: %v", key, err)
 		}
 		ex.mayPanic(st, tv.T, "call-"+label, in)
+	}
+	// a function that must not panic may only call repository functions that must not panic either
+	if ex.ct != nil && ex.ct.NoPanic && !c.Extern {
+		if !c.NoPanic {
+			if !c.Trusted {
+				ex.addObl("safe", "callee-may-panic-"+label, ex.ct.Props, st, "false", ex.pos(in), "nopanic: the callee "+shortFn(key)+" is not under a nopanic contract")
+			}
+		} else {
+			for _, cl := range c.NoPanicIf {
+				tv, err := pre.Translate(cl.E, "Bool")
+				if err != nil {
+					unsupported("nopanic_if of %s: %v", key, err)
+				}
+				ex.addObl("safe", "callee-nopanic-condition-"+label, ex.ct.Props, st, tv.T, ex.pos(in), "nopanic: condition under which "+shortFn(key)+" cannot panic: "+cl.Text)
+			}
+		}
 	}
 	// havoc
 	for _, g := range c.Modifies {
